@@ -119,6 +119,17 @@ def render(reg, opts, preamble=None):
     return generate_code(st, GENS[opts["fw"]], class_generator_kwargs=gen_kwargs(opts), preamble=preamble)
 
 
+def render_single_model(reg, opts, index):
+    """public per-class API: <Generator>(model, **kwargs).generate() outside generate_code() -> 'imports\n---\nclass text'"""
+    opts = norm_opts(opts)
+    models = list(reg.models)
+    # generators of all models are constructed first (as generate_code does), so that every class name is already
+    # converted and the text cannot depend on which other models happen to have been rendered before
+    gens = [GENS[opts["fw"]](m, **gen_kwargs(opts)) for m in models]
+    imports, text = gens[index % len(models)].generate()
+    return dt.compile_imports(imports) + "\n---\n" + text
+
+
 def root_models(reg):
     return [m for m in reg.models if any(p.parent is None for p in m.pointers)]
 
